@@ -89,7 +89,7 @@ func init() {
 		{"WEB", []string{"WEB-*"}},
 		{"EF", []string{"EF-globals"}},
 		{"BN", []string{"WEB-trunc", "LP-loop"}},
-		{"RX", []string{"RX-model", "RX-status"}},
+		{"RX", []string{"RX-model", "RX-status", "RX-elided"}},
 	}, map[string]int{"WEB-status": 3, "WEB-method": 1, "WEB-validate": 3, "WEB-grow": 3, "WEB-opts": 1},
 		"The structural half of the handler contract is decided over all SSA paths of SnapshotHandler: the method test precedes everything, a non-GET gets exactly one 405, every invalid parameter value ends in exactly one 4xx reply followed by return, a failed snapshot in a 500, and the page (the aggregated snapshot written to the response) is produced only on the path without any error reply; options are created per request (WEB-opts) and no package-level state of webstack/stack is written (EF-globals), so requests cannot influence each other; the capture loop strictly grows the buffer to min(2n, maxmem) until the dump fits or maxmem is reached (WEB-grow, LP); every header and frame shape runtime.Stack prints is accepted by the parser patterns (RX). Not decided: anything about the live runtime, goroutine churn or request interleavings.",
 		"net/http serialises nothing for us: handler re-entrancy rests on EF-globals; html/template execution is concurrency-safe")
